@@ -104,7 +104,7 @@ func ls2Shapes() []ls2Shape {
 	sh := []ls2Shape{
 		{7, 4, 0, -1, 0, []int{32}, 1, 2},
 		{7, 4, 0, -1, 0, []int{32, 256}, 2, 0},
-		{7, 0, 0, -1, 0, []int{0}, 0, 3},
+		{7, 0, 0, -1, 0, []int{0, 32}, 0, 3},
 		{7, 4, 0, 7, 0, []int{32}, 1, 0},
 		{7, 4, 2, -1, 0, []int{32}, 1, 1},
 		{11, 4, 0, -1, 0, []int{32}, 1, 0},
@@ -132,6 +132,11 @@ func ls2Shapes() []ls2Shape {
 // covShape records a per-shape reachability witness: tag + "/" + letter of the shape index.
 func covShape(tag string, idx int) {
 	nd.Cover(tag + "/" + string(rune('a'+idx)))
+}
+
+// expShape declares that shape idx has to reach the witness tag on some path.
+func expShape(tag string, idx int) {
+	nd.Expect(tag + "/" + string(rune('a'+idx)))
 }
 
 // metaShape: MetaLeaseSet length-deciding fields.
@@ -196,7 +201,7 @@ func metaShapes() []metaShape {
 		{7, 0, 0, 7, 0, []int{0}, 0},
 		{7, 4, 0, -1, 6, []int{0}, 0},
 		{7, 4, 0, -1, 0, []int{5}, 1},
-		{-1, 0, 0, -1, 0, []int{0}, 0},
+		{-1, 0, 0, -1, 0, []int{0, 0}, 0},
 		{1, 0, 2, -1, 0, []int{0}, 0},
 	}
 	if nd.Thorough() {
@@ -253,7 +258,7 @@ func encShapes() []encShape {
 		{7, -1, 61, 2},
 		{11, -1, 61, 0},
 		{11, 7, 62, 0},
-		{7, -1, 60, 0},
+		{7, -1, 200, 0},
 		{1, -1, 61, 0},
 		{0, -1, 61, 1},
 	}
